@@ -939,6 +939,71 @@ def r12(ctx):
     ctx.need('C02-R12', n, 1, 'scanned prunes in the combined strategies')
 
 
+@rule('C02', 'C02-R13', 'what a read is tagged with comes from that read: a demultiplex method that keeps a table on the strategy instance and reads it back in later calls (a per-cell cache) '
+                        'stores only values that the key determines - a value cut from the current read (the raw barcode, the UMI ...) under a coarser key is handed to every later read of that key')
+def r13(ctx):
+    n = 0
+    for rel in [BASEDEMUX] + [p_ for p_ in ctx.ix.pyfiles() if p_.startswith(DEMUXMODS)]:
+        m = ctx.ix.module(rel)
+        for q, ds in m.defs.items():
+            f = ds[-1]
+            if not (isinstance(f, ast.FunctionDef) and q.endswith('.demultiplex') and f.args.args and f.args.args[0].arg == 'self'):
+                continue
+            n += 1
+            # stores into a table of the instance: self.T[k] = v   /   x = self.T[k] = v   /   self.T.setdefault(k, v)
+            stores = []
+            for st in walk_no_nested(f):
+                if isinstance(st, ast.Assign):
+                    for t in st.targets:
+                        if isinstance(t, ast.Subscript) and isinstance(t.value, ast.Attribute) and src(t.value.value) == 'self':
+                            stores.append((t.value.attr, t.slice, st.value, st))
+                elif isinstance(st, ast.Expr) and isinstance(st.value, ast.Call) and isinstance(st.value.func, ast.Attribute) and st.value.func.attr == 'setdefault' \
+                        and isinstance(st.value.func.value, ast.Attribute) and src(st.value.func.value.value) == 'self' and len(st.value.args) == 2:
+                    stores.append((st.value.func.value.attr, st.value.args[0], st.value.args[1], st))
+            if not stores:
+                continue
+            params = {a.arg for a in f.args.args[1:]}
+            # locals derived from the records handed to this call
+            derived = set(params)
+            grew = True
+            while grew:
+                grew = False
+                for st in walk_no_nested(f):
+                    if isinstance(st, ast.Assign) and names_in(st.value) & derived:
+                        for t in st.targets:
+                            for x in ast.walk(t):
+                                if isinstance(x, ast.Name) and x.id not in derived:
+                                    derived.add(x.id)
+                                    grew = True
+            for attr, key, val, st in stores:
+                read_back = [x for x in walk_no_nested(f) if isinstance(x, ast.Attribute) and x.attr == attr and src(x.value) == 'self' and isinstance(x.ctx, ast.Load)
+                             and not any(y is x for y in ast.walk(st))]
+                if not read_back:
+                    continue
+                knames = names_in(key)
+                # determined by the key: the key names, and locals computed from them and from the configuration only
+                det = set(knames)
+                grew = True
+                while grew:
+                    grew = False
+                    for a_ in walk_no_nested(f):
+                        if isinstance(a_, ast.Assign) and a_ is not st and (names_in(a_.value) & derived) and (names_in(a_.value) & derived) <= det:
+                            for t in a_.targets:
+                                for x in ast.walk(t):
+                                    if isinstance(x, ast.Name) and x.id not in det:
+                                        det.add(x.id)
+                                        grew = True
+                loose = sorted((names_in(val) & derived) - det - {'self'}, key=lambda x_: (x_ not in names_in(val), x_.lower() != x_, x_))
+                ctx.emit('C02-R13', not loose, rel, st, f'{q}: the table self.{attr} is keyed by `{src(key)}` and holds values the key determines' if not loose else
+                         f'{q}: self.{attr}[{src(key)}] keeps {loose}, cut from the read pair that created the entry, and later read pairs with the same `{src(key)}` are tagged from the table: '
+                         f'they carry the {loose[0]} of another read', key=f'{q}:instance-table:{attr}',
+                         witness={'read pairs': [f'first pair of a {src(key)}', f'second pair of the same {src(key)} with a different {loose[0]}'], 'tagged with': f'{loose[0]} of the first pair'} if loose else None,
+                         what=f'{q}: per-read values are cached on the strategy instance under a coarser key')
+    ctx.need('C02-R13', n, 5, 'demultiplex methods inspected')
+    if not any(o.rule == 'C02-R13' for o in ctx.obligations):
+        ctx.emit('C02-R13', True, BASEDEMUX, None, f'{n} demultiplex methods: none keeps a table on the strategy instance that a later call reads back', key='instance-tables')
+
+
 META = {
     'text': ('Decides, for each registered strategy class, properties of the layout table obtained by constant propagation through its constructor '
              'chain (incl. composite strategies and post-init capture adjustments): sequence and quality are cut with identical slices in every demultiplex '
